@@ -8,6 +8,7 @@ from collections import Counter
 
 from . import sym
 from .sym import show, const_value
+from .corpus import int_min as int_min_, int_max as int_max_
 
 ORD = ('Lt', 'Eq', 'Gt', 'Un')
 OPSET = {'Lt': {'Lt'}, 'Le': {'Lt', 'Eq'}, 'Gt': {'Gt'}, 'Ge': {'Gt', 'Eq'}, 'Eq': {'Eq'}, 'Ne': {'Lt', 'Gt', 'Un'}}
@@ -417,6 +418,14 @@ def measure_kind(ex, x, F):
     return None
 
 
+def int_widening(t):
+    """(operand, source type) if t is an integer cast that preserves every value of the source type"""
+    if t[0] == 'cast' and t[1] == 'IntToInt' and len(t) > 4 and t[4] and sym.is_int(t[4]) and sym.is_int(t[2]):
+        if int_min_(t[2]) <= int_min_(t[4]) and int_max_(t[4]) <= int_max_(t[2]):
+            return t[3], t[4]
+    return None
+
+
 def norm_check(ex, cond, val, F):
     """normalise one (condition, edge taken on the accepting path) to a check record"""
     t = truth(val)
@@ -438,6 +447,14 @@ def norm_check(ex, cond, val, F):
         break
     if c[0] == 'bin' and c[1] in OPSET:
         a, b = c[2], c[3]
+        # `(x as W) op (k as W)` for a value-preserving integer widening T -> W orders exactly like `x op k`
+        wa, wb = int_widening(a), int_widening(b)
+        if wa and wb and wa[1] == wb[1]:
+            a, b = wa[0], wb[0]
+        elif wa and b[0] == 'const' and b[2] is not None and sym.is_int(b[1]) and int_min_(wa[1]) <= const_value(b) <= int_max_(wa[1]):
+            a, b = wa[0], sym.mk_const(wa[1], const_value(b))
+        elif wb and a[0] == 'const' and a[2] is not None and sym.is_int(a[1]) and int_min_(wb[1]) <= const_value(a) <= int_max_(wb[1]):
+            a, b = sym.mk_const(wb[1], const_value(a)), wb[0]
         ma, mb = measure_kind(ex, a, F), measure_kind(ex, b, F)
         for (m_, side, other) in ((ma, 'a', b), (mb, 'b', a)):
             if isinstance(m_, tuple) and m_[0] == 'charcount_capped':
